@@ -47,6 +47,10 @@ pub struct Gen<'a> {
     dialect: bool,
     /// the prelude declaring RecT / EnumT at module level has been emitted
     types_declared: bool,
+    /// closed helper functions of a wrapped program that go to module level, before `def main()`:
+    /// after the module is frozen their callers are compiled against a known, frozen callee
+    hoisted: Vec<J>,
+    hoist: bool,
 }
 
 fn absent() -> J {
@@ -119,7 +123,7 @@ const KEYS: &[&str] = &["a", "b", "c", "k1", "k2"];
 
 impl<'a> Gen<'a> {
     pub fn new(rng: &'a mut Rng) -> Gen<'a> {
-        Gen { rng, scopes: vec![vec![]], counter: 0, in_loop: 0, in_def: 0, fail_rate: 12, budget: 60, dialect: false, types_declared: false }
+        Gen { rng, scopes: vec![vec![]], counter: 0, in_loop: 0, in_def: 0, fail_rate: 12, budget: 60, dialect: false, types_declared: false, hoisted: Vec::new(), hoist: false }
     }
 
     pub fn set_dialect(&mut self, d: bool) {
@@ -1715,8 +1719,13 @@ impl<'a> Gen<'a> {
             if body["op"] == "and" { json!({"k": "and", "l": var(&a), "r": var(&b)}) } else { bin("in", var(&a), json!({"k": "list", "items": [var(&b)]})) }
         } else { body };
         let dflt = if self.rng.chance(1, 3) { callf("tr", vec![int(50)]) } else { absent() };
-        out.push(json!({"k": "def", "name": f, "params": [param(&a, "normal", absent()), param(&b, "normal", dflt.clone())],
-            "body": [{"k": "return", "e": body}]}));
+        let d = json!({"k": "def", "name": f, "params": [param(&a, "normal", absent()), param(&b, "normal", dflt.clone())],
+            "body": [{"k": "return", "e": body}]});
+        if self.hoist && self.in_def > 0 && dflt["k"] == "absent" && self.rng.chance(1, 2) {
+            self.hoisted.push(d);
+        } else {
+            out.push(d);
+        }
         let vals: Vec<J> = vec![int(self.small_int()), strlit(self.pick(&["ab", "", "x y"])), json!({"k": "list", "items": [int(1)]}),
                                tuple(vec![int(1), int(2)]), tuple(vec![int(7)]), none(), json!({"k": "bool", "b": false})];
         let boom = bin("//", int(1), int(0));
@@ -1770,8 +1779,14 @@ impl<'a> Gen<'a> {
             _ => param(&x, "kwargs", absent()),
         };
         let tn = self.pick(&["int", "string", "tuple", "dict", "NoneType"]);
-        let mut out = vec![json!({"k": "def", "name": f, "params": [p],
-            "body": [{"k": "return", "e": bin("==", callf("type", vec![var(&x)]), strlit(tn))}]})];
+        let d = json!({"k": "def", "name": f, "params": [p],
+            "body": [{"k": "return", "e": bin("==", callf("type", vec![var(&x)]), strlit(tn))}]});
+        let mut out = Vec::new();
+        if self.hoist && self.in_def > 0 && self.rng.chance(2, 3) {
+            self.hoisted.push(d);
+        } else {
+            out.push(d);
+        }
         for _ in 0..(2 + self.rng.below(3)) {
             let v = self.pick(&[int(1), strlit("s"), none(), tuple(vec![int(1)])]);
             let c = match self.rng.below(6) {
@@ -1995,10 +2010,15 @@ impl<'a> Gen<'a> {
         if wrap {
             self.scopes.push(vec![]);
             self.in_def += 1;
+            self.hoist = true;
             let body = gen_block(self);
+            self.hoist = false;
             self.in_def -= 1;
             self.scopes.pop();
-            json!([{"k": "def", "name": "main", "params": [], "body": body}, {"k": "expr", "e": call(var("main"), vec![])}])
+            let mut out = std::mem::take(&mut self.hoisted);
+            out.push(json!({"k": "def", "name": "main", "params": [], "body": body}));
+            out.push(json!({"k": "expr", "e": call(var("main"), vec![])}));
+            J::Array(out)
         } else {
             J::Array(gen_block(self))
         }
